@@ -49,6 +49,8 @@ def base_scenarios():
     out.append(('second_reg_vs_deliver', [(s1, 2)], [(2, s1, 4)], [(2, s1, 5), (1, s1, 0)]))
     out.append(('reg_unreg_deliver', [(s1, 0)], [(2, s1, 1), (2, s1, 2)], [(2, s1, 3), (3, 1, 0), (1, s1, 0)]))
     out.append(('three_mutators', [(s1, 0), (s2, 0)], [(2, s1, 1)], [(2, s2, 2), (3, 0, 0), (2, s1, 3), (1, s1, 0)]))
+    # three calls that only write the data half-lock (no first registration: the delivery's fallback guard would hold those up)
+    out.append(('three_data_writers', [(s1, 0)], [(2, s1, 1), (2, s1, 2)], [(3, 0, 0), (2, s1, 3), (3, 1, 0), (1, s1, 0)]))
     out.append(('stale_unregister', [(s1, 0)], [(2, s1, 1), (3, 0, 0), (2, s1, 2), (3, 0, 0)], [(1, s1, 0), (2, s1, 3)]))
     out.append(('sticky', [(s1, 0)], [(2, s1, 1)], [(1, s1, 0), (3, 0, 0), (1, s1, 0)]))
     # unregister_signal racing with a registration of the same signal, then a delivery: the registration that returned must run
@@ -128,7 +130,7 @@ def gen(seed, tier, want=None):
                 others = [a for a in range(4) if a != P]
                 kmax = 5 if tier == 'quick' else 8
                 for Q, R, S in itertools.permutations(others):
-                    for i in range(0, kmax + 1):
+                    for i in range(0, kmax + 4):
                         for j in range(0, kmax + 1):
                             for k in range(0, kmax + 1):
                                 scen.append(Scenario(name, disp, setup, acts, [P] * i + [Q] * 70 + [P] * j + [R] * 70 + [P] * k + [S] * 70 + [P] * 70))
